@@ -411,14 +411,63 @@ class PMAdapter(Adapter):
     def evaluate(self, obj, x, free_idx):
         B = self.B
         out = {}
-        if B.symbolic:
-            B.new_rng()
-            s = obj.sample(ps.arr(B, x), self.times, n_samples=1, seed=4,
-                           return_df=False)
-            out['sample shape'] = tuple(np.shape(s))
-            for o in range(np.shape(s)[0]):
-                for k in range(np.shape(s)[1]):
-                    out['sample[%d,%d]' % (o, k)] = s[o][k][0]
+        # (the float replay samples with the real generator: same seed,
+        # same numbers for the reduced and the unfixed object)
+        B.new_rng()
+        s = obj.sample(ps.arr(B, x), self.times, n_samples=1, seed=4,
+                       return_df=False)
+        out['sample shape'] = tuple(np.shape(s))
+        for o in range(np.shape(s)[0]):
+            for k in range(np.shape(s)[1]):
+                out['sample[%d,%d]' % (o, k)] = s[o][k][0]
+        return out
+
+    def restrict(self, full_out, free_idx):
+        return dict(full_out)
+
+
+class PPMAdapter(Adapter):
+    """chi.PopulationPredictiveModel.fix_parameters (population parameters;
+    wraps / unwraps the population model)."""
+
+    def __init__(self, B, units):
+        self.B, self.units = B, units
+        self.times = [1.0, 2.5]
+        self._n = self.raw().n_parameters()
+
+    def n(self):
+        return self._n
+
+    def raw(self):
+        D = hier.total_dim(self.units)
+        mm = SymMechModel(self.B, n_params=D - 1, n_outputs=1)
+        pm = chi.PredictiveModel(mm, chi.GaussianErrorModel())
+        return chi.PopulationPredictiveModel(
+            pm, hier.make_population(self.units, 2))
+
+    def reduced(self):
+        return self.raw()
+
+    def names(self, obj):
+        return obj.get_parameter_names()
+
+    def count(self, obj):
+        return obj.n_parameters()
+
+    def assume(self, full):
+        for v in full:
+            self.B.assume(v > 0)
+
+    def evaluate(self, obj, x, free_idx):
+        B = self.B
+        out = {}
+        B.new_rng()
+        s = obj.sample(ps.arr(B, x), self.times, n_samples=2, seed=4,
+                       return_df=False)
+        out['sample shape'] = tuple(np.shape(s))
+        for k in range(np.shape(s)[1]):
+            for i in range(np.shape(s)[2]):
+                out['sample[0,%d,%d]' % (k, i)] = s[0][k][i]
         return out
 
     def restrict(self, full_out, free_idx):
@@ -453,6 +502,8 @@ def make_adapter(B, spec):
         return LLAdapter(B, spec[1])
     if kind == 'pm':
         return PMAdapter(B, spec[1])
+    if kind == 'ppm':
+        return PPMAdapter(B, spec[1])
     raise ValueError(kind)
 
 
@@ -524,7 +575,7 @@ def case_step(B, cfg):
            '%r vs %d' % (A.count(obj), len(free)))
     if hasattr(obj, 'n_fixed_parameters'):
         B.fact('n_fixed_parameters', obj.n_fixed_parameters() == n - len(free))
-    if not free and cfg['object'][0] not in ('mech', 'pm'):
+    if not free and cfg['object'][0] not in ('mech', 'pm', 'ppm'):
         return
     got = A.evaluate(obj, [x[k] for k in free], free)
     want = A.restrict(A.evaluate(A.raw(), fullv, list(range(n))), free)
@@ -597,7 +648,9 @@ def objects(tier):
             ('mech', 3),
             ('ll', ['Gaussian']), ('ll', ['LogNormal']),
             ('pm', ['Gaussian', 'Gaussian']),
-            ('pm', ['ConstantAndMultiplicative'])]
+            ('pm', ['ConstantAndMultiplicative']),
+            ('ppm', [U('gaussian'), U('pooled')]),
+            ('ppm', [U('lognormal'), U('gaussian_nc')])]
     if not q:
         out += [('pop', [U('gaussian', 2)], True),
                 ('pop', [U('lognormal_nc', 1, 1)], False),
@@ -616,6 +669,9 @@ def n_of(spec):
         return refs.em_nparams(spec[1])
     if spec[0] == 'mech':
         return spec[1]
+    if spec[0] == 'ppm':
+        return sum(ps.p_per_dim(u['kind'], 2) * u['n_dim'] * (1 + u['cov'])
+                   for u in spec[1])
     if spec[0] in ('ll', 'pm'):
         return 2 + sum(refs.em_nparams(e) for e in spec[1])
     n = 0
@@ -651,7 +707,7 @@ def jobs(tier):
 
 
 BOUNDS = dict(
-    quick='17 reducible objects (2 predictive models) with 1..4 parameters; all (pre-state, call '
+    quick='19 reducible objects (2 predictive, 2 population predictive models) with 1..4 parameters; all (pre-state, call '
           'dictionary) pairs up to 120 per object (evenly spaced when there '
           'are more: 2^n * 3^n); every second transition with an evaluation '
           'between the two calls',
@@ -660,6 +716,5 @@ BOUNDS = dict(
              '<= 700 transitions per object',
     outside='ProblemModellingController.fix_parameters here (its histories '
             'of fix / re-fix / release calls are decided in C14 against the '
-            'posterior assembled by hand); population-level predictive models (covered for the wrapped '
-            'sub-models only); SBML-backed ReducedMechanisticModel (C09/C11)')
+            'posterior assembled by hand); SBML-backed ReducedMechanisticModel (C09/C11)')
 TRUSTED = ['z3', 'RNG stub', 'the unfixed objects as reference (C01, C04, C05)']
